@@ -6,6 +6,9 @@ CONSTANTS Src = {"v","b","g"}
           Gated = {"g"}
           MaxH = 1
           EmitOn = "edge"
+          GovChains = {"b","g","t","v"}
+          RelayOn = FALSE
+          Silent = {"v","r"}
 VIEW View
 INVARIANT TypeOK
 PROPERTY PropC20 PropC21 PropC22
